@@ -1074,6 +1074,13 @@ fn generate_deadlock(seed: u64) -> Scenario {
                     body: sub,
                 }),
                 5 => steps.push(Step::DetachedAsk { target: t, body: sub }),
+                // ask_join awaited inside a hook is an ask like any other as far as cycles are concerned
+                6 => steps.push(Step::Peer {
+                    target: t,
+                    kind: SendKind::AskJoin,
+                    mty: MTy::J,
+                    body: sub,
+                }),
                 _ => steps.push(Step::Peer {
                     target: t,
                     kind: SendKind::Ask,
